@@ -583,7 +583,8 @@ class ClassModificationArgument(Node):
         self.scope, self.__deepcopy__ = None, None
         new = copy.deepcopy(self, memo)
         self.scope, self.__deepcopy__ = _scope, _deepcp
-        new.scope, new.__deepcopy__ = _scope, _deepcp
+        new.scope = _scope
+        del new.__deepcopy__
         return new
 
 
@@ -862,7 +863,7 @@ class Class(Node):
         self.__deepcopy__ = None
         new = copy.deepcopy(self, memo)
         self.__deepcopy__ = _deepcp
-        new.__deepcopy__ = _deepcp
+        del new.__deepcopy__
         return new
 
     def __repr__(self):
